@@ -698,6 +698,13 @@ class Fn:
     def st_For(self, st):
         it = self.ev(st.iter)
         el, d = self.elem_of_iter(it)
+        if d is None:
+            # an iteration space the inference has no name for (dict views, generators): the loop itself is the space - lists that receive one item per
+            # iteration of this loop are parallel to each other
+            key = ("loop", id(st), self.qual)
+            if key not in self.W.filt:
+                self.W.filt[key] = self.W.fresh("loop")
+            d = self.W.filt[key]
         for _ in range(2):
             self.bind(st.target, el)
             self.ctx.append(("for", d, st))
